@@ -186,13 +186,14 @@ fn run_case(input: &str) -> Outcome {
 
 const T0: u64 = 1_700_000_000_000;
 
-/// Fixed set-up of the exhaustive part: repo 0 public, repo 1 private (delegates: local node and peer 1;
+/// Fixed set-up of the exhaustive part (node 4 and the stranger 3 are known nodes): repo 0 public, repo 1 private (delegates: local node and peer 1;
 /// allow: peer 2), repo 2 private and NOT in storage (delegate: node 4); all seeded; node 4 known;
 /// peers 1 (delegate), 2 (allow-listed), 3 (stranger) connected.
 fn prefix() -> String {
     format!(
-        "{T0} 1 p,0,1,0,0,-,1,1000 p,1,1,1,0+1,2,2,1000 p,2,0,1,4,-,-,0 z,0 z,1 z,2 n,4,{} c,1,i c,2,o c,3,i",
-        T0 - 1000
+        "{T0} 1 p,0,1,0,0,-,1,1000 p,1,1,1,0+1,2,2,1000 p,2,0,1,4,-,-,0 z,0 z,1 z,2 n,4,{} n,3,{} c,1,i c,2,o c,3,i",
+        T0 - 1000,
+        T0 - 900
     )
 }
 
@@ -208,6 +209,9 @@ fn alphabet() -> Vec<String> {
         "p,2,1,1,4,-,-,0".to_string(),        // repository 2 arrives in storage
         "e,6000".to_string(),                 // gossip tick
         "i,0".to_string(),                    // AddInventory of the public repository
+        // the stranger announces an inventory of its own listing the node's repositories: the routing table
+        // now says the stranger seeds them (unverified claim; must not open the replay of private refs)
+        format!("a,3,3,i,0,{},1,0+1", T0 + 9),
     ]
 }
 
@@ -291,6 +295,12 @@ fn gen_case(rng: &mut Rng, max_ops: u64) -> String {
             toks.push(format!("n,{x},{}", t0 - rng.below(1000)));
         }
     }
+    // the peers themselves are usually known nodes, so that their own inventory announcements are accepted
+    for x in 1..=3u64 {
+        if !rng.chance(1, 4) {
+            toks.push(format!("n,{x},{}", t0 - rng.below(1000)));
+        }
+    }
     let mut connected: Vec<u64> = vec![];
     for p in 1..=3u64 {
         if !rng.chance(1, 5) {
@@ -321,10 +331,21 @@ fn gen_case(rng: &mut Rng, max_ops: u64) -> String {
             30..=47 => {
                 ts += rng.range(1, 5);
                 let p = if connected.is_empty() { 1 } else { *rng.pick(&connected) };
-                let a = AnnSpec { node: rng.range(4, 5), kind: Kind::Refs, repo: rid, ts, sig_ok: true, inv: vec![], flag: !rng.chance(1, 10) };
+                let a = AnnSpec { node: rng.range(4, 5), kind: Kind::Refs, repo: rid, ts, sig_ok: true, inv: vec![], flag: !rng.chance(1, 10), reuse: None };
                 toks.push(ann_tok(p, &a));
             }
-            48..=55 => toks.push("R".into()),
+            48..=51 => toks.push("R".into()),
+            52..=55 => {
+                // a connected peer claims to seed some of the node's repositories (its own inventory
+                // announcement, unverified): routing entries (rid, peer) appear
+                if !connected.is_empty() {
+                    let p = *rng.pick(&connected);
+                    ts += rng.range(1, 5);
+                    let inv: Vec<u64> = (0..n_repos).filter(|_| rng.chance(2, 3)).collect();
+                    let a = AnnSpec { node: p, kind: Kind::Inv, repo: 0, ts, sig_ok: true, inv, flag: false, reuse: None };
+                    toks.push(ann_tok(p, &a));
+                }
+            }
             56..=67 => {
                 // repository change: visibility, allow list, delegates, presence, fresh own refs
                 let r = &mut repos[rid as usize];
@@ -412,7 +433,7 @@ fn gen_case(rng: &mut Rng, max_ops: u64) -> String {
             _ => {
                 ts += 1;
                 let p = if connected.is_empty() { 1 } else { *rng.pick(&connected) };
-                let a = AnnSpec { node: 4, kind: Kind::Inv, repo: 0, ts, sig_ok: true, inv: (0..n_repos).filter(|_| rng.bool()).collect(), flag: false };
+                let a = AnnSpec { node: 4, kind: Kind::Inv, repo: 0, ts, sig_ok: true, inv: (0..n_repos).filter(|_| rng.bool()).collect(), flag: false, reuse: None };
                 toks.push(ann_tok(p, &a));
             }
         }
@@ -441,9 +462,9 @@ fn main() {
         }
     }
     ctx.finish(
-        "every sequence of 3 (thorough: 4) ops over a 10-op alphabet (stranger / allow-listed peer subscribe, own refs announcement of a \
+        "every sequence of 3 (thorough: 4) ops over an 11-op alphabet (stranger / allow-listed peer subscribe, own refs announcement of a \
          private repo, refs announcement of another node about a private repo in storage / not in storage, restart, public repo made \
-         private, repo arriving in storage, gossip tick, AddInventory) after a fixed set-up with a delegate, an allow-listed peer and a \
+         private, repo arriving in storage, gossip tick, AddInventory, the stranger announcing an inventory that lists the node's repositories) after a fixed set-up with a delegate, an allow-listed peer and a \
          stranger connected, each followed by the stranger reconnecting and subscribing to everything; plus random interleavings (quick <= 12, \
          thorough <= 20 ops) of the same kinds with random visibility / allow-list / delegate / presence changes, fetches, (un)seeding; \
          non-trivial = a refs announcement about a private repository was stored while a peer that may not see it was connected; \
